@@ -755,6 +755,10 @@ class Evaluator:
             else:
                 p.ret = recv
             return [p]
+        if rname in ("out.code", "out.data") and m == "len":
+            p.ret = Num("usize", p_var(rname + ".len"))
+            p.ret.marker = rname + ".len@" + str(len([x for x in p.effects if x.kind == "push" and x.target == rname]))
+            return [p]
         if m == "len" and not args:
             if isinstance(recv, Str) and len(recv.t) == 1 and len(next(iter(recv.t))) == 1 and next(iter(recv.t))[0][0] == "lit":
                 p.ret = Num("usize", p_const(len(next(iter(recv.t))[0][1])))
